@@ -12,7 +12,7 @@ RULE = ("(a) bounded-exhaustive: every sequence of <=2 (quick; 702) / <=4 (thoro
         "alphabet {store_object(pid in {a, ab, None}, content in {X, Y}, validation in {none, right, "
         "wrong}), tag_object(pid, cid in {cid(X), cid(Y), never stored}), delete_object(pid), "
         "delete_if_invalid_object(content, right/wrong)}; (b) Hypothesis: histories of up to 30 calls "
-        "of all nine public methods over pids {a, ab, b/a, c} (prefix- and suffix-related), 3 contents, "
+        "of all nine public methods over pids {a, ab, b/a, c, a non-ASCII pid, a pid that is the path of an existing file} (prefix- and suffix-related), 3 contents, "
         "3 formats, reopen. After EVERY call the outcome must be in the reference model's documented "
         "set and alpha(disk) must equal the model image: pid refs, cid lists (exact multiset of "
         "lines), objects, and no residue (tmp files, *_delete markers, misplaced files). "
@@ -21,7 +21,7 @@ RULE = ("(a) bounded-exhaustive: every sequence of <=2 (quick; 702) / <=4 (thoro
         "(op, pid, symbolic argument, outcome class).")
 EXHAUSTIVE_NOTE = "all sequences up to the stated length over the 26-call alphabet are enumerated completely"
 ASSUMPTIONS = ["single thread", "arguments are valid (C17 owns invalid ones)"]
-PIDS = ["a", "ab", "b/a", "c"]
+PIDS = ["a", "ab", "b/a", "c", "\u00fc/\u00e9\u20ac", seq.PIDFILE[0]]   # + a non-ASCII pid, + a pid that is the path of an existing file
 FORMATS = [None, "fmt:x", "fmt:y"]
 
 
